@@ -21,11 +21,17 @@
 (*            (namespace components, file stems) of EVERY type of a run are stropped while the namespace tree   *)
 (*            is built, before any file is rendered.  A memo that notes "came back unchanged" by spelling alone  *)
 (*            lets the file stem of a sibling decide how an equally spelled field of another type is emitted.    *)
+(*   fst   -- state inside a template filter that outlives the call: e.g. lang/cpp `_make_textwrap`, a         *)
+(*            module-level lru_cache of textwrap.TextWrapper objects behind the block_comment filter: one per   *)
+(*            interpreter, shared by every file, generator, context and run.  A filter that writes to such an     *)
+(*            object (say a hanging indent for an indented documentation line) and does not restore it lets the   *)
+(*            doc comment of one type decide how the doc comment of a later type is wrapped.                     *)
 (* Files are sequences of abstract lines:                                                                 *)
 (*   <<"E">> empty line, <<"T",t>> the type's own text, <<"L",k>> unique name from a literal base token,   *)
 (*   <<"D",k>> unique name from a computed base token, <<"M",a,b>> imported module-level name a and a name  *)
 (*   b made by an imported macro, <<"I",u>> include of dependency u, <<"N",w,c>> a field whose name is spelled  *)
-(*   w, emitted stropped (c) or as it is, <<"S">> include of the serialization                              *)
+(*   w, emitted stropped (c) or as it is, <<"C",t,s>> the doc comments of t rendered under filter state s,      *)
+(*   <<"S">> include of the serialization                                                                   *)
 (*   support (absent with omit_serialization_support).                                                     *)
 (* One action per critical step of DSDLCodeGenerator._generate_type/_generate_code:                        *)
 (*   StartRun (build_namespace_tree + generator construction or reuse), Compile (env.get_template),         *)
@@ -33,7 +39,8 @@
 (* The four boolean constants select, per mechanism, the behaviour that satisfies the property (TRUE) or    *)
 (* the behaviour found in the pinned tree (FALSE); TLC proves I => P for all-TRUE and refutes each FALSE.   *)
 (* FullStropKey = FALSE is not a behaviour of the pinned tree: it is the design flaw "memo keyed by spelling   *)
-(* only", kept as a negative control whose violating histories are replayed against the real code.            *)
+(* only", kept as a negative control whose violating histories are replayed against the real code; likewise    *)
+(* PureFilters = FALSE: "a filter keeps state between files".                                                 *)
 EXTENDS GenSiblingsP, TLC, Json
 
 CONSTANTS NTypes,          \* types are 1..NTypes (3 or 4)
@@ -48,16 +55,18 @@ CONSTANTS NTypes,          \* types are 1..NTypes (3 or 4)
           VolatileUniq,    \* TRUE: to_template_unique_name is never constant-folded
           FreshModule,     \* TRUE: imported template modules are evaluated for every file
           Words,           \* spellings: 1 = clean as "path" but reserved as "any", 2 = plain, 3 = keyword (both)
-          FullStropKey     \* TRUE: the stropping memo is keyed by (token, token type) (or absent)
+          FullStropKey,    \* TRUE: the stropping memo is keyed by (token, token type) (or absent)
+          Docs,            \* 0 = types without documentation, 1 = type 2 has indented doc lines, 1 and 3 long ones
+          PureFilters      \* TRUE: a template filter's result depends on its arguments only
 
-VARIABLES shape, limit, word,  \* scenario parameters (chosen in Init)
-          uniq, lim, tplc, modv, depc, unch,
+VARIABLES shape, limit, word, docs,  \* scenario parameters (chosen in Init)
+          uniq, lim, tplc, modv, depc, unch, fst,
           run, last, nruns, pc, cur, raw,
           memo, ok,        \* P-layer memo and verdict
           hist             \* history (for case emission only; hidden by VIEW in exhaustive configs)
 
-vars == <<shape, limit, word, uniq, lim, tplc, modv, depc, unch, run, last, nruns, pc, cur, raw, memo, ok, hist>>
-View == <<shape, limit, word, uniq, lim, tplc, modv, depc, unch, run, last, nruns, pc, cur, raw, memo, ok>>
+vars == <<shape, limit, word, docs, uniq, lim, tplc, modv, depc, unch, fst, run, last, nruns, pc, cur, raw, memo, ok, hist>>
+View == <<shape, limit, word, docs, uniq, lim, tplc, modv, depc, unch, fst, run, last, nruns, pc, cur, raw, memo, ok>>
 
 Types == 1..NTypes
 
@@ -92,6 +101,12 @@ ShapesEmitQ   == {Shape(2, 2, 1, 1, TRUE, TRUE, TRUE), Shape(0, 2, 1, 1, FALSE, 
 Changed(w, kind) == (w = 3) \/ (w = 1 /\ kind = "any")
 HasStem(S) == 2 \in S
 
+(* ---- documentation: rendering the docs of type 2 writes to the filter's shared object, the docs of types 1  *)
+(* and 3 are long enough to show it                                                                          *)
+SetsFilterState(t) == t = 2
+ShowsFilterState(t) == t \in {1, 3}
+ShapesPlain == {Shape(0, 0, 0, 0, FALSE, FALSE, FALSE)}
+
 (* ---- the P key of a generated file: shape and limit are fixed per scenario, hence implicit ----          *)
 PKey(d, t, omit) == <<t, Refs(d, t), omit>>
 
@@ -114,7 +129,7 @@ NoDeps == [k \in {} |-> {}]
 Idle == [d |-> 0, ord |-> <<>>, omit |-> FALSE]
 
 Init ==
-    /\ shape \in Shapes /\ limit \in Limits /\ word \in Words
+    /\ shape \in Shapes /\ limit \in Limits /\ word \in Words /\ docs \in Docs /\ fst = 0
     /\ uniq = NoUniq /\ lim = 0 /\ tplc = NoTpl /\ modv = 0 /\ depc = NoDeps /\ unch = {}
     /\ run = Idle /\ last = Idle /\ nruns = 0 /\ pc = "idle" /\ cur = 0 /\ raw = <<>>
     /\ memo = EmptyMemo /\ ok = TRUE /\ hist = <<>>
@@ -126,6 +141,7 @@ StartRun(d, ord, mode, omit) ==
     /\ mode \in (IF nruns = 0 THEN {"fresh"} ELSE Modes)
     /\ (mode = "gen") => (d = last.d /\ ord = last.ord)         \* same generator = same namespace object
     /\ uniq' = IF mode = "proc" THEN NoUniq ELSE uniq            \* the singleton is per interpreter
+    /\ fst' = IF mode = "proc" THEN 0 ELSE fst                   \* so is a module-level cache of filter objects
     /\ IF mode = "gen" THEN UNCHANGED <<lim, tplc, modv>>
        ELSE lim' = 0 /\ tplc' = NoTpl /\ modv' = 0               \* new pp objects, new Jinja environment
     /\ depc' = IF mode \in {"gen", "lctx"} THEN depc ELSE NoDeps  \* the memo lives in the Language object
@@ -139,7 +155,7 @@ StartRun(d, ord, mode, omit) ==
     /\ nruns' = nruns + 1
     /\ pc' = "compile" /\ cur' = ord[1]
     /\ hist' = Append(hist, [d |-> d, ord |-> ord, mode |-> mode, omit |-> omit, files |-> <<>>])
-    /\ UNCHANGED <<shape, limit, word, raw, memo, ok>>
+    /\ UNCHANGED <<shape, limit, word, docs, raw, memo, ok>>
 
 (* template = self._env.get_template(name): compiled on first use in this environment                      *)
 Compile ==
@@ -151,7 +167,7 @@ Compile ==
             ELSE /\ tplc' = [c |-> TRUE, f |-> FALSE, v |-> <<>>]
                  /\ UNCHANGED uniq
     /\ pc' = "render"
-    /\ UNCHANGED <<shape, limit, word, lim, modv, depc, unch, run, last, nruns, cur, raw, memo, ok, hist>>
+    /\ UNCHANGED <<shape, limit, word, docs, lim, modv, depc, unch, fst, run, last, nruns, cur, raw, memo, ok, hist>>
 
 (* UniqueNameGenerator.reset(); then the template body runs top to bottom                                  *)
 Render ==
@@ -174,6 +190,7 @@ Render ==
                    THEN [i \in 1..Cardinality(deps) |-> <<"I", SortedSeq(deps)[i]>>] \o (IF run.omit THEN <<>> ELSE << <<"S">> >>)
                    ELSE <<>>
        IN /\ raw' = Rep(<<"E">>, shape.lead) \o << <<"T", t>> >>
+                    \o (IF docs = 1 THEN << <<"C", t, IF ShowsFilterState(t) /\ ~PureFilters THEN fst ELSE 0>> >> ELSE <<>>)
                     \o [i \in 1..shape.lit |-> <<"L", litv[i]>>]
                     \o [i \in 1..shape.dyn |-> <<"D", dynv[i]>>]
                     \o (IF shape.mod THEN << <<"M", mv, n3>> >> ELSE <<>>)
@@ -186,8 +203,9 @@ Render ==
                      THEN [x \in (DOMAIN depc) \cup {k} |-> IF x = k THEN Deps(run.d)[t] ELSE depc[x]]
                      ELSE depc
           /\ unch' = IF nreq /\ ~FullStropKey /\ ~nch THEN unch \cup {word} ELSE unch
+          /\ fst' = IF docs = 1 /\ SetsFilterState(t) /\ ~PureFilters THEN 1 ELSE fst
     /\ pc' = "post"
-    /\ UNCHANGED <<shape, limit, word, lim, tplc, run, last, nruns, cur, memo, ok, hist>>
+    /\ UNCHANGED <<shape, limit, word, docs, lim, tplc, run, last, nruns, cur, memo, ok, hist>>
 
 (* _generate_with_line_buffer through the shared LimitEmptyLines object, write, record                      *)
 Post ==
@@ -204,7 +222,7 @@ Post ==
        THEN run' = Idle /\ pc' = "idle" /\ cur' = 0
        ELSE run' = [run EXCEPT !.ord = Tail(@)] /\ pc' = "compile" /\ cur' = run.ord[2]
     /\ raw' = <<>>
-    /\ UNCHANGED <<shape, limit, word, uniq, tplc, modv, depc, unch, last, nruns>>
+    /\ UNCHANGED <<shape, limit, word, docs, uniq, tplc, modv, depc, unch, fst, last, nruns>>
 
 (* A history ends when the property has been violated (the violating state is kept as a terminal state so    *)
 (* that EmitBad can print it).                                                                              *)
@@ -232,8 +250,8 @@ LimitRespected == limit > 0 => \A k \in DOMAIN memo : MaxERun(memo[k], 1, 0, 0) 
 OwnLineKept == \A k \in DOMAIN memo : \E i \in 1..Len(memo[k]) : memo[k][i] = <<"T", k[1]>>
 
 (* ---- case emission (spec -> code): one record per complete history ----                                  *)
-Emit == (pc = "idle" /\ nruns = MaxRuns) => PrintT(ToJson([shape |-> shape, limit |-> limit, word |-> word, runs |-> hist]))
+Emit == (pc = "idle" /\ nruns = MaxRuns) => PrintT(ToJson([shape |-> shape, limit |-> limit, word |-> word, docs |-> docs, runs |-> hist]))
 
 (* ---- negative controls: print every violating history (a predicted defect, replayed against the real code) *)
-EmitBad == ok \/ PrintT(ToJson([shape |-> shape, limit |-> limit, word |-> word, runs |-> hist]))
+EmitBad == ok \/ PrintT(ToJson([shape |-> shape, limit |-> limit, word |-> word, docs |-> docs, runs |-> hist]))
 =============================================================================
